@@ -8,7 +8,7 @@ symbolic index that the solver enumerates exhaustively; the oracle compares the 
 from engine.hgen import mk
 
 ASSUMPTIONS = [
-    "menu-bounded: modules are [statement A] [from-import under test] [statement B] with A, B from 15 forms (assignment, a string assignment with non-ASCII text, relative imports with a module part, "
+    "menu-bounded: modules are [statement A] [from-import under test] [statement B] with A, B from 18 forms (incl. a second mapped import, an empty line, a try/except around an import; (assignment, a string assignment with non-ASCII text, relative imports with a module part, "
     "import, unmapped from-import, relative import, star import, nested import inside a def, docstring, comment, if/else, "
     "aliased mapped import with trailing comment, multi-line expression, __future__ import), 4 layouts of the import "
     "(single line, parenthesised multi-line, backslash continuation, parenthesised with comment), every v1 module of the "
@@ -31,13 +31,14 @@ with notrace():
     names = [(n, ("alias%d" % k if (al and k == 0) else None)) for k, n in enumerate(sel)]
     imp = mig_import_source(module, names, lay)
     a_src, b_src = MIG_OTHER[ORDER[fa]], MIG_OTHER[ORDER[fb]]
-    if join == 1:      # same physical line: "<simple statement>; <import>"
-        if "\\n" in a_src[:-1] or a_src.startswith(("#", "def", "if", '\"\"\"')) or lay != 0:
+    simple = lambda t: len(t) > 1 and "\\n" not in t[:-1] and "#" not in t and not t.startswith(("def", "if", "try", '\"\"\"'))   # noqa: E731
+    if join == 1:      # same physical line: "<simple statement>; <import>" (the import may continue on further lines)
+        if not simple(a_src) or lay in (3,):
             src = None
         else:
             src = a_src[:-1] + "; " + imp + b_src
-    elif join == 2:    # "<import>; <simple statement>"
-        if "\\n" in b_src[:-1] or b_src.startswith(("#", "def", "if", '\"\"\"')) or lay != 0:
+    elif join == 2:    # "<import>; <simple statement>" after the last line of the import
+        if not simple(b_src) or lay in (3, 4):
             src = None
         else:
             src = a_src + imp[:-1] + "; " + b_src
@@ -66,12 +67,12 @@ def harnesses(tier, seed, active_kf=()):
     n_mod = len(mapping)
     thorough = tier == "thorough"
     out = []
-    forms = 14 if thorough else 9
-    order = (0, 1, 2, 3, 4, 12, 13, 14, 5, 9, 6, 7, 8, 10, 11)     # quick tier takes the first 10 of these forms
+    forms = 17 if thorough else 10
+    order = (0, 1, 2, 3, 4, 12, 13, 14, 15, 16, 17, 5, 9, 6, 7, 8, 10, 11)     # quick tier takes the first 11 of these forms
     joins = (0,) if "F19" in active_kf else (0, 1, 2)
-    for lay in range(4):
+    for lay in range(5):
         for join in joins:
-            if join and lay != 0:
+            if (join == 1 and lay == 3) or (join == 2 and lay in (3, 4)):
                 continue
             for mi in range(n_mod):      # one harness per v1 module (parallelism)
                 params = "ns: int, al: bool, fa: int, fb: int, nl: bool"
